@@ -5,13 +5,119 @@ import copy
 from .core import AnalysisError
 
 
+class _Canon(ast.NodeTransformer):
+    """Order-insensitive canonical form used only for *comparing* texts: operands of commutative operators on
+    non-literal-sequence operands sorted, `a > b` as `b < a`, `x += e` as `x = x + e`."""
+
+    COMM = (ast.Add, ast.Mult, ast.BitAnd, ast.BitOr, ast.BitXor)
+
+    @staticmethod
+    def _seq_literal(n):
+        return isinstance(n, (ast.List, ast.Tuple, ast.JoinedStr)) or (isinstance(n, ast.Constant) and isinstance(n.value, (str, bytes)))
+
+    def visit_BinOp(self, node):
+        self.generic_visit(node)
+        if isinstance(node.op, self.COMM):
+            ops = []
+
+            def flat(n):
+                if isinstance(n, ast.BinOp) and type(n.op) is type(node.op):
+                    flat(n.left)
+                    flat(n.right)
+                else:
+                    ops.append(n)
+
+            flat(node)
+            if not any(self._seq_literal(o) for o in ops):
+                ops.sort(key=lambda o: ast.unparse(o))
+                out = ops[0]
+                for o in ops[1:]:
+                    out = ast.BinOp(left=out, op=node.op, right=o)
+                return out
+        return node
+
+    def visit_Compare(self, node):
+        self.generic_visit(node)
+        if len(node.ops) == 1:
+            op, a, b = node.ops[0], node.left, node.comparators[0]
+            if isinstance(op, (ast.Gt, ast.GtE)):
+                return ast.Compare(left=b, ops=[ast.Lt() if isinstance(op, ast.Gt) else ast.LtE()], comparators=[a])
+            if isinstance(op, (ast.Eq, ast.NotEq)) and ast.unparse(b) < ast.unparse(a):
+                return ast.Compare(left=b, ops=[op], comparators=[a])
+        return node
+
+    def visit_AugAssign(self, node):
+        self.generic_visit(node)
+        tgt_load = copy.deepcopy(node.target)
+        for x in ast.walk(tgt_load):
+            if hasattr(x, "ctx"):
+                x.ctx = ast.Load()
+        return self.visit(ast.Assign(targets=[node.target], value=ast.BinOp(left=tgt_load, op=node.op, right=node.value), lineno=getattr(node, "lineno", 0)))
+
+
+def _canon_text(node):
+    try:
+        t = _Canon().visit(copy.deepcopy(node))
+        return " ".join(ast.unparse(ast.fix_missing_locations(t)).split())
+    except Exception:
+        return None
+
+
+_literal_canon = {}
+
+
+def _canon_of_literal(text):
+    if text not in _literal_canon:
+        c = None
+        for mode in ("eval", "exec"):
+            try:
+                tree = ast.parse(text, mode=mode)
+                body = tree.body if mode == "eval" else (tree.body[0] if len(tree.body) == 1 else None)
+                if body is not None:
+                    c = _canon_text(body)
+                    break
+            except SyntaxError:
+                continue
+        _literal_canon[text] = c if c is not None else text
+    return _literal_canon[text]
+
+
+class NormStr(str):
+    """Normalised source text of an AST node. Prints / slices / searches like the plain text; *equality* (==, `in` a
+    tuple or list) is decided on the order-insensitive canonical form (set / dict lookups use the plain text), so a rule that expects
+    `a + b` also accepts `b + a`, `x > 0` also `0 < x`, `i += 1` also `i = i + 1`."""
+
+    __slots__ = ("canon",)
+
+    def __new__(cls, text, canon=None):
+        o = super().__new__(cls, text)
+        o.canon = canon if canon is not None else text
+        return o
+
+    def __eq__(self, other):
+        if isinstance(other, NormStr):
+            return self.canon == other.canon
+        if isinstance(other, str):
+            return str.__eq__(self, other) or self.canon == _canon_of_literal(other)
+        return NotImplemented
+
+    def __ne__(self, other):
+        r = self.__eq__(other)
+        return r if r is NotImplemented else not r
+
+    def __hash__(self):
+        # hashing stays on the plain text: set / dict lookups against literal strings behave exactly as for str
+        return str.__hash__(self)
+
+
 def norm(node):
-    """Canonical single-line text of an AST node (whitespace/quotes/parens free)."""
+    """Canonical single-line text of an AST node (whitespace/quotes/parens free); see NormStr for how it compares."""
     if node is None:
         return "None"
     if isinstance(node, list):
         return "; ".join(norm(n) for n in node)
-    return " ".join(ast.unparse(node).split())
+    text = " ".join(ast.unparse(node).split())
+    return NormStr(text, _canon_text(node) or text)
 
 
 def dotted(node):
